@@ -26,6 +26,10 @@ func runC18(c *an.Ctx) {
 	// shared with C03: reconciliation answers reach the ownership test only if the scheduler forwards every status
 	// update; an update filtered out before (as a duplicate, say) leaves a task of the previous life alive
 	c.As(map[string]string{"R03g": "R18e"}, func() { r03g(c) })
+	// shared with C04: "never kills what it still owns" rests on ownership surviving status updates (a reconciliation
+	// answer carries no executor id) and on the roster keeping every task that was not explicitly killed
+	c.As(map[string]string{"R04h": "R18f"}, func() { r04h(c) })
+	c.As(map[string]string{"R04g": "R18g"}, func() { r04g(c) })
 }
 
 func r18a(c *an.Ctx) {
@@ -292,7 +296,7 @@ func reasonAssume(c *an.Ctx, fn *ssa.Function) (func(ssa.Value) (bool, bool), in
 				isRecon = true
 			}
 			if cst, isC := o.(*ssa.Const); isC && cst.Value != nil && want != nil && strings.HasSuffix(cst.Type().String(), "TaskStatus_Reason") {
-				if k, isK := constant.Int64Val(cst.Value); isK && k == *want {
+				if k, isK := an.Int64Of(cst.Value); isK && k == *want {
 					isRecon = true
 				}
 			}
